@@ -128,7 +128,7 @@ def run_case(case: dict[str, Any]) -> dict[str, Any]:
                 if val_kind == "none":
                     s = Sample(ts, None)
                 elif val_kind == "nan":
-                    s = Sample(ts, Quantity(math.nan))
+                    s = Sample(ts, Quantity(float("nan")))
                 else:
                     s = Sample(ts, Quantity(my))
                 try:
